@@ -4,7 +4,7 @@ import math
 import warnings
 import numpy as np
 
-from harness.proj import to_rat, rat_close
+from harness.proj import to_rat, rat_close, relayout, try_layout
 from harness.core import Machinery
 
 LEVEL = "model_checking"
@@ -93,6 +93,19 @@ def replay_det(ctx, metrics, c, n):
                     ctx.violation("kge:definition:" + site, "(1-kge)^2=%r, definition %r" % ((1 - kge) ** 2, d2), dict(case, **kw))
                     return
     if not hasnan:
+        # the scores do not depend on how the caller stores the series (list, Series, float32, integer, strided)
+        for f, key in ((metrics.nse, "nse"), (metrics.bias, "bias_std"), (metrics.kge, None)):
+            try:
+                v, _used = try_layout(lambda a, b: float(call(f, a, b)), (obs, sim), (relayout(obs, n), relayout(sim, n // 7)))
+            except Exception as ex:
+                ctx.violation("scores:container:exception", repr(ex), case)
+                return
+            ref = float(call(f, obs, sim))
+            tol = 1e-5 if (n % 7 == 3 or (n // 7) % 7 == 3) else 1e-12          # float32 storage: the score itself is computed in single precision
+            if not (v == ref or (math.isnan(v) and math.isnan(ref)) or abs(v - ref) <= tol * max(1.0, abs(ref))):
+                ctx.violation("%s:container-type" % (key or "kge").split("_")[0], "%r for another storage of the same numbers, %r for float64 arrays" % (v, ref),
+                              dict(case, layout=n % 7))
+                return
         # invariances (exact maps): NSE under a common affine map, bias / KGE under a common positive scaling
         a, b = [(2.0, 3.0), (0.5, -7.0), (-4.0, 1.0)][n % 3]
         v = float(call(metrics.nse, a * obs + b, a * sim + b))
